@@ -10,13 +10,63 @@
   Only property theorems (and the definitions they are stated with) live here.
 -/
 import Lcapy.Props.C01
+import Lcapy.Model.Netlist
 import Mathlib.Tactic.LinearCombination
 import Mathlib.Tactic.FieldSimp
 import Mathlib.Tactic.NormNum
 namespace Lcapy.C01
-open Lcapy.MNA Ix
+open Lcapy Lcapy.MNA Lcapy.Netlist Ix
 variable {K : Type} [Field K]
 set_option linter.unusedSimpArgs false
+
+/-! ### the EXECUTED expansion: `Netlist.expandRaw` (what the driver runs on the parsed line)
+
+The three theorems after this block (`fdopamp_expand_law`, `inamp_expand_law`, and `opamp_expand_law` in Props/C01.lean) are
+stated about component lists (`fdopampExpand`, `inampExpand`, `[E o …, R o …]`).  The theorems here say that the front-end
+function the driver executes produces exactly the lines with that wiring: names, types, node order and arguments.
+What remains between the two is the reading of a plain `E` / `R` line as `.E` / `.R` (`elabOne`, a string-level function whose
+acceptance cannot be evaluated in the kernel); that step is tied by the correspondence (`mna.expand`, `mna.solve`). -/
+
+/-- `'{%s / 2}' % Ad` as the front-end evaluates it -/
+def halfOf (ad : String) : String := match parseVal ad with | some r => ratToStr (r / 2) | none => ad
+
+/-- **fdopamp_expandRaw**: one round of `expandRaw` on a parsed `fdopamp` line: two `opamp` lines of gain Ad/2 around Nocm -/
+theorem fdopamp_expandRaw (name np nm nip nim nocm ad ac : String) :
+    expandRaw ⟨name, "Efdopamp", [np, nm, nip, nim, nocm], [ad, ac]⟩ =
+      [⟨"Ep__" ++ name, "Eopamp", [np, nocm, nip, nim], [halfOf ad, ac, "0"]⟩,
+       ⟨"Em__" ++ name, "Eopamp", [nocm, nm, nip, nim], [halfOf ad, ac, "0"]⟩] := by
+  simp only [expandRaw, halfOf]
+  cases h : parseVal ad <;> simp [h]
+
+/-- **inamp_expandRaw**: one round on a parsed `inamp` line: the wiring of `inampExpand` -/
+theorem inamp_expandRaw (name np nm nip nim nrp nrm ad ac rf : String) :
+    expandRaw ⟨name, "Einamp", [np, nm, nip, nim, nrp, nrm], [ad, ac, rf]⟩ =
+      [⟨"Ep__" ++ name, "Eopamp", ["_nodeanon_" ++ name ++ "_7", "0", nip, nrp], [ad, "0", "0"]⟩,
+       ⟨"Em__" ++ name, "Eopamp", ["_nodeanon_" ++ name ++ "_8", "0", nim, nrm], [ad, "0", "0"]⟩,
+       ⟨"Ed__" ++ name, "Eopamp", [np, nm, "_nodeanon_" ++ name ++ "_7", "_nodeanon_" ++ name ++ "_8"], ["1", ac, "0"]⟩,
+       ⟨"Rfp__" ++ name, "R", [nrp, "_nodeanon_" ++ name ++ "_7"], [rf]⟩,
+       ⟨"Rfm__" ++ name, "R", [nrm, "_nodeanon_" ++ name ++ "_8"], [rf]⟩] := by
+  simp [expandRaw]
+
+/-- **opamp_expandRaw**: an `opamp` line with Ro = 0 is one VCVS … -/
+theorem opamp_expandRaw_Ro0 (name np nm ncp ncm ad ac ro : String) (hro : parseVal ro = some 0) :
+    expandRaw ⟨name, "Eopamp", [np, nm, ncp, ncm], [ad, ac, ro]⟩ = [⟨"E__" ++ name, "E", [np, nm, ncp, ncm], [ad, ac]⟩] := by
+  simp [expandRaw, hro]
+
+/-- … and with Ro ≠ 0 a VCVS from a fresh internal node plus Ro to the output node (the list of `opamp_expand_law`) -/
+theorem opamp_expandRaw_Ro (name np nm ncp ncm ad ac ro : String) (hro : parseVal ro ≠ some 0) :
+    expandRaw ⟨name, "Eopamp", [np, nm, ncp, ncm], [ad, ac, ro]⟩ =
+      [⟨"E__" ++ name, "E", ["_nodeanon_" ++ name, nm, ncp, ncm], [ad, ac]⟩, ⟨"R__" ++ name, "R", ["_nodeanon_" ++ name, np], [ro]⟩] := by
+  simp [expandRaw, hro]
+
+/-- **fdopamp_expand_full**: both rounds (what a fully expanding Lcapy analyses): the two VCVS lines of `fdopampExpand`
+    (`parseVal "0" = some 0` is a fact about the string parser that the kernel cannot evaluate; `#eval` confirms it) -/
+theorem fdopamp_expand_full (h0 : parseVal "0" = some 0) (name np nm nip nim nocm ad ac : String) :
+    expandOnce (expandOnce [⟨name, "Efdopamp", [np, nm, nip, nim, nocm], [ad, ac]⟩]) =
+      [⟨"E__" ++ ("Ep__" ++ name), "E", [np, nocm, nip, nim], [halfOf ad, ac]⟩,
+       ⟨"E__" ++ ("Em__" ++ name), "E", [nocm, nm, nip, nim], [halfOf ad, ac]⟩] := by
+  simp only [expandOnce, List.flatMap_cons, List.flatMap_nil, List.append_nil, fdopamp_expandRaw, List.cons_append,
+    List.nil_append, opamp_expandRaw_Ro0 _ _ _ _ _ _ _ _ h0]
 
 /-- `Efdopamp._expand`: `Ename Np Nm fdopamp Nip Nim Nocm Ad Ac` becomes two opamps with gain Ad/2 (output
     resistance 0, so each is one VCVS): `Ep` from Nocm up to Np and `Em` from Nm up to Nocm -/
